@@ -10,8 +10,9 @@
 //   deep      pruned on the canonical model state incl. chain order, larger depth, stages 0..2, clear of every period
 //   unk       releases / reallocs of addresses that are not outstanding (stale, foreign) mixed into histories
 //   inl, sep  every kind with inline record / every kind with separately allocated record, three buckets
-//   glob(full) the same histories through the global operator new/delete/new[]/delete[] and cpputest_malloc/
-//             realloc/free routing of MemoryLeakWarningPlugin.cpp onto the private detector
+//   glob(full) histories through every allocating entry of the global routing table of MemoryLeakWarningPlugin.cpp (new,
+//             new[], nothrow and file/line forms, cpputest_malloc family, realloc) onto the private detector, with the table
+//             manipulations (saveAndDisable+restore, turnOff+turnOnDefault) as operations
 //   chains(7) n blocks spread over the buckets in every bucket pattern, released in every order
 //   rereport  report() as an explicit history operation (the other sections observe every report from an emptied
 //             output buffer): repeated reports interleaved with alloc/free/startChecking/unknown release
@@ -162,45 +163,80 @@ struct Reporter : MemoryLeakFailure {
 // 0: detector API, new/new[] with inline record, malloc with separate record (what the global wrappers pass)
 // 1: detector API, every kind inline      2: detector API, every kind separate
 // 3: the global operators / cpputest_malloc family with the private detector installed as the global one
+// Allocation forms of route 3 = the entries of the routing table in MemoryLeakWarningPlugin.cpp. Other routes only
+// distinguish "with location" from "without".
+enum Form { F_PLAIN = 0, F_NOTHROW = 1, F_LOC = 2, F_LOCINT = 3, F_CALLOC = 4 };
+const char* FORMNAME[] = {"", ",nothrow", ",file,line", ",file,int-line", ",calloc,file,line"};
+inline bool form_has_location(int form) { return form >= F_LOC; }
+// The harness itself allocates between operations, so the leak-detecting overloads are on only around the single call.
+// The state of the routing table the history prescribes is re-established in front of every call: freshly switched on,
+// or switched on and then taken through one saveAndDisableNewDeleteOverloads()/restoreNewDeleteOverloads() cycle.
 struct GlobalOn {
-    GlobalOn() { MemoryLeakWarningPlugin::turnOnDefaultNotThreadSafeNewDeleteOverloads(); }
+    explicit GlobalOn(bool cycled) {
+        MemoryLeakWarningPlugin::turnOnDefaultNotThreadSafeNewDeleteOverloads();
+        if (cycled) { MemoryLeakWarningPlugin::saveAndDisableNewDeleteOverloads(); MemoryLeakWarningPlugin::restoreNewDeleteOverloads(); }
+    }
     ~GlobalOn() { MemoryLeakWarningPlugin::turnOffNewDeleteOverloads(); }
 };
 struct Drv {
-    MemoryLeakDetector* det; int route;
+    MemoryLeakDetector* det; int route; bool cycled = false;
     bool sep(int kind) const { return route == 2 || (route == 0 && kind == K_MAL); }
-    char* alloc(int kind, size_t size, const char* file, int line) {
+    char* alloc(int kind, size_t size, int form, const char* file, int line) {
         if (route != 3) {
             if (file) return det->allocMemory(&g_alloc[kind], size, file, (size_t)line, sep(kind));
             return det->allocMemory(&g_alloc[kind], size, sep(kind));
         }
-        GlobalOn on;
+        GlobalOn on(cycled);
         switch (kind) {
-        case K_NEW: return file ? (char*)operator new(size, file, (size_t)line) : (char*)operator new(size);
-        case K_ARR: return file ? (char*)operator new[](size, file, (size_t)line) : (char*)operator new[](size);
-        default:    return file ? (char*)cpputest_malloc_location(size, file, (size_t)line) : (char*)cpputest_malloc(size);
+        case K_NEW:
+            switch (form) {
+            case F_NOTHROW: return (char*)operator new(size, std::nothrow);
+            case F_LOC: return (char*)operator new(size, file, (size_t)line);
+            case F_LOCINT: return (char*)operator new(size, file, (int)line);
+            default: return (char*)operator new(size);
+            }
+        case K_ARR:
+            switch (form) {
+            case F_NOTHROW: return (char*)operator new[](size, std::nothrow);
+            case F_LOC: return (char*)operator new[](size, file, (size_t)line);
+            case F_LOCINT: return (char*)operator new[](size, file, (int)line);
+            default: return (char*)operator new[](size);
+            }
+        default:
+            switch (form) {
+            case F_LOC: case F_LOCINT: return (char*)cpputest_malloc_location(size, file, (size_t)line);
+            case F_CALLOC: return (char*)cpputest_calloc_location(1, size, file, (size_t)line);
+            default: return (char*)cpputest_malloc(size);
+            }
         }
     }
-    void release(int kind, char* p) {
+    void release(int kind, char* p, int form = F_PLAIN) {
         if (route != 3) { det->deallocMemory(&g_alloc[kind], p, "rel.cpp", 7, sep(kind)); return; }
-        GlobalOn on;
-        switch (kind) {
-        case K_NEW: operator delete(p); break;
-        case K_ARR: operator delete[](p); break;
-        default:    cpputest_free_location(p, "rel.c", 7); break;
+        GlobalOn on(cycled);
+        switch (kind) {          // the release form a compiler pairs with the allocating form
+        case K_NEW:
+            if (form == F_NOTHROW) operator delete(p, std::nothrow); else if (form == F_LOC) operator delete(p, "rel.cpp", (size_t)7); else if (form == F_LOCINT) operator delete(p, "rel.cpp", (int)7); else operator delete(p);
+            break;
+        case K_ARR:
+            if (form == F_NOTHROW) operator delete[](p, std::nothrow); else if (form == F_LOC) operator delete[](p, "rel.cpp", (size_t)7); else if (form == F_LOCINT) operator delete[](p, "rel.cpp", (int)7); else operator delete[](p);
+            break;
+        default: if (form == F_PLAIN) cpputest_free(p); else cpputest_free_location(p, "rel.c", 7); break;
         }
     }
     char* realloc(char* p, size_t size, const char* file, int line) {
         if (route != 3) return det->reallocMemory(&g_alloc[K_MAL], p, size, file, (size_t)line, sep(K_MAL));
-        GlobalOn on;
+        GlobalOn on(cycled);
         return (char*)cpputest_realloc_location(p, size, file, (size_t)line);
     }
+    // table manipulations as operations of their own (route 3): they must not change what any form records
+    void table_cycle() { { GlobalOn on(cycled); MemoryLeakWarningPlugin::saveAndDisableNewDeleteOverloads(); MemoryLeakWarningPlugin::restoreNewDeleteOverloads(); } cycled = true; }
+    void table_off_on() { { GlobalOn on(cycled); MemoryLeakWarningPlugin::turnOffNewDeleteOverloads(); MemoryLeakWarningPlugin::turnOnDefaultNotThreadSafeNewDeleteOverloads(); } cycled = false; }
 };
 
 // ------------------------------------------------------------------ reference model (from the property statement)
 struct Rec {
     char* addr; int slot; size_t size; int kind; MemLeakPeriod period; int stage; unsigned number;
-    const char* file; int line; int boff;
+    const char* file; int line; int boff; int form;
 };
 bool visible(const Rec& r, MemLeakPeriod p) {
     switch (p) {
@@ -311,16 +347,18 @@ std::string chain_check(MemoryLeakDetector& det) {
 }
 
 // ------------------------------------------------------------------ one history
-struct AllocVar { int kind; size_t size; int b; bool loc; };
+struct AllocVar { int kind; size_t size; int b; bool loc; int form = -1;
+    int eff_form() const { return form >= 0 ? form : loc ? F_LOC : F_PLAIN; } };
 struct Cfg {
     const char* name; int depth, maxlive, route;
     std::vector<AllocVar> av; std::vector<size_t> rsizes; bool realloc_null;
     unsigned period_mask; int maxstage; bool release; unsigned clear_mask; bool mark; bool misuse; bool prune;
     int rfail = 0;      // failing realloc variants offered per malloc block: 1 = platform realloc answers NULL; 2 = + size SIZE_MAX/2; 3 = + size SIZE_MAX-2
+    bool table_ops = false;   // route 3: save+restore cycle and off+on of the routing table as operations
 };
-enum OpK { ALLOC, FREE, REALLOC, REALLOC_NULL, START, STOP, ENABLE, DISABLE, INC, DEC, RELEASE, CLEAR, MARK, FREE_STALE, FREE_FOREIGN, REALLOC_FOREIGN, REALLOC_FAIL, REALLOC_NULL_FAIL };
+enum OpK { ALLOC, FREE, REALLOC, REALLOC_NULL, START, STOP, ENABLE, DISABLE, INC, DEC, RELEASE, CLEAR, MARK, FREE_STALE, FREE_FOREIGN, REALLOC_FOREIGN, REALLOC_FAIL, REALLOC_NULL_FAIL, TABLE_CYCLE, TABLE_OFFON };
 const char* OPNAME[] = {"alloc", "free", "realloc", "realloc-null", "startChecking", "stopChecking", "enable", "disable", "increaseAllocationStage", "decreaseAllocationStage",
-                        "releaseStage", "clearAllAccounting", "markCheckingPeriodLeaks", "free-unknown", "free-unknown", "realloc-unknown", "realloc-fail", "realloc-null-fail"};
+                        "releaseStage", "clearAllAccounting", "markCheckingPeriodLeaks", "free-unknown", "free-unknown", "realloc-unknown", "realloc-fail", "realloc-null-fail", "table-save-restore", "table-off-on"};
 struct Op { OpK k; int a, b; };
 
 struct History {
@@ -351,9 +389,9 @@ struct History {
 
     int chain_len(int boff) const { int n = 0; for (auto& r : recs) if (r.boff == boff) n++; return n; }
     void note_removal(const Rec& r) { removals++; if (chain_len(r.boff) >= 2) nontrivial = true; stale = r.addr; stale_kind = r.kind; stale_boff = r.boff; }
-    void add_rec(char* p, size_t size, int kind, const char* file, int line, int boff) {
+    void add_rec(char* p, size_t size, int kind, const char* file, int line, int boff, int form = F_PLAIN) {
         Rec r; r.addr = p; r.slot = slot_of(p); r.size = size; r.kind = kind; r.period = cur; r.stage = stage; r.number = next_number++;
-        r.file = file ? file : "<unknown>"; r.line = file ? line : 0; r.boff = boff;
+        r.file = file ? file : "<unknown>"; r.line = file ? line : 0; r.boff = boff; r.form = form;
         if (r.slot >= 0) exp_slot[r.slot] = 1;
         recs.push_back(r);
     }
@@ -378,6 +416,7 @@ struct History {
         if (cfg.release) ops[n++] = {RELEASE, 0, 0};
         for (int p = 0; p < 4; p++) if (cfg.clear_mask & (1u << p)) ops[n++] = {CLEAR, p, 0};
         if (cfg.mark) ops[n++] = {MARK, 0, 0};
+        if (cfg.table_ops && cfg.route == 3) { ops[n++] = {TABLE_CYCLE, 0, 0}; ops[n++] = {TABLE_OFFON, 0, 0}; }
         if (cfg.misuse) {
             if (stale) ops[n++] = {FREE_STALE, 0, 0};
             ops[n++] = {FREE_FOREIGN, 0, 0};
@@ -400,13 +439,15 @@ struct History {
         switch (op.k) {
         case ALLOC: {
             const AllocVar& v = cfg.av[op.a];
-            const char* file = v.loc ? LOCFILE[v.kind] : nullptr; int line = 100 + step;
-            trace += vf::fmt("%s(%zu,b%d%s) ", ANAME[v.kind], v.size, BOFF[v.b], v.loc ? "" : ",noloc");
+            int form = v.eff_form();
+            const char* file = form_has_location(form) ? LOCFILE[v.kind] : nullptr; int line = 100 + step;
+            if (cfg.route == 3) trace += vf::fmt("%s(%zu%s,b%d) ", v.kind == K_MAL ? (form == F_CALLOC ? "calloc" : "malloc") : ANAME[v.kind], v.size, form == F_CALLOC ? ",file,line" : FORMNAME[form], BOFF[v.b]);
+            else trace += vf::fmt("%s(%zu,b%d%s) ", ANAME[v.kind], v.size, BOFF[v.b], file ? "" : ",noloc");
             g_next_boff = BOFF[v.b];
-            char* p = drv.alloc(v.kind, v.size, file, line);
+            char* p = drv.alloc(v.kind, v.size, form, file, line);
             if (!p) return failed(name, "returned-null", "allocation returned NULL");
             memset(p, 'a' + (step % 26), v.size);
-            add_rec(p, v.size, v.kind, file, line, BOFF[v.b]);
+            add_rec(p, v.size, v.kind, file, line, BOFF[v.b], form);
             break; }
         case REALLOC_NULL: {
             trace += "realloc(NULL,8,b0) ";
@@ -414,7 +455,7 @@ struct History {
             char* p = drv.realloc(nullptr, 8, LOCFILE[K_MAL], 100 + step);
             if (!p) return failed(name, "returned-null", "realloc(NULL, 8) returned NULL");
             memset(p, 'a' + (step % 26), 8);
-            add_rec(p, 8, K_MAL, LOCFILE[K_MAL], 100 + step, BOFF[0]);
+            add_rec(p, 8, K_MAL, LOCFILE[K_MAL], 100 + step, BOFF[0], F_LOC);
             break; }
         case FREE: {
             Rec r = recs[op.a];
@@ -422,7 +463,7 @@ struct History {
             note_removal(r);
             recs.erase(recs.begin() + op.a);
             if (r.slot >= 0) exp_slot[r.slot] = 2;
-            drv.release(r.kind, r.addr);
+            drv.release(r.kind, r.addr, r.form);
             break; }
         case REALLOC: {
             Rec r = recs[op.a];
@@ -437,7 +478,7 @@ struct History {
             char* p = drv.realloc(r.addr, size, "re.c", 100 + step);
             if (!p) return failed(name, "returned-null", "realloc of an outstanding block returned NULL");
             memset(p, 'a' + (step % 26), size);
-            add_rec(p, size, K_MAL, "re.c", 100 + step, nb);
+            add_rec(p, size, K_MAL, "re.c", 100 + step, nb, F_LOC);
             break; }
         case START: trace += "startChecking "; det.startChecking(); cur = mem_leak_period_checking; break;
         case STOP: trace += "stopChecking "; det.stopChecking(); cur = mem_leak_period_enabled; break;
@@ -495,6 +536,8 @@ struct History {
             failed_reallocs++;
             if (p) return failed(name, "returned-non-null", "a realloc that could not be satisfied returned a pointer");
             break; }
+        case TABLE_CYCLE: trace += "table:save+restore "; drv.table_cycle(); break;
+        case TABLE_OFFON: trace += "table:off+on "; drv.table_off_on(); break;
         case REALLOC_FOREIGN: {
             trace += "realloc(foreign,8) ";
             expect_unknown = true;
@@ -545,7 +588,7 @@ struct History {
     // validated by chain_check in this execution) of the model's (kind,size,period,stage), bucket of the stale address
     std::string key() {
         std::string k;
-        k += (char)('0' + (int)cur); k += (char)('0' + stage);
+        k += (char)('0' + (int)cur); k += (char)('0' + stage); k += drv.cycled ? 'c' : 'f';
         for (int i = 0; i < MemoryLeakDetectorTable::hash_prime; i++) {
             MemoryLeakDetectorNode* n = det.memoryTable_.table_[i].head_;
             if (!n) continue;
@@ -554,6 +597,7 @@ struct History {
                 const Rec* r = nullptr; for (auto& x : recs) if (x.addr == n->memory_) r = &x;
                 if (!r) vf::harness_error("pruning key: a record passed the observation but has no model counterpart");
                 k += (char)('0' + r->kind); k += (char)('a' + (r->size > 25 ? 25 : r->size)); k += (char)('0' + (int)r->period); k += (char)('0' + r->stage);
+                if (cfg.route == 3) k += (char)('0' + r->form);
             }
         }
         k += '!'; if (stale && cfg.misuse) k += (char)('A' + stale_boff);
@@ -593,7 +637,7 @@ void chains_case(int n, int nbuck, long idx) {
         h.trace += vf::fmt("[%s] %s(1,b%d) ", PNAME[(int)h.cur], ANAME[kind], BOFF[pat[i]]);
         vf::ctx("alloc");
         g_next_boff = BOFF[pat[i]];
-        char* p = h.drv.alloc(kind, 1, LOCFILE[kind], 100 + i);
+        char* p = h.drv.alloc(kind, 1, F_LOC, LOCFILE[kind], 100 + i);
         if (!p) { h.failed("alloc", "returned-null", "allocation returned NULL"); return; }
         p[0] = (char)('a' + i);
         h.add_rec(p, 1, kind, LOCFILE[kind], 100 + i, BOFF[pat[i]]);
@@ -636,7 +680,7 @@ void rereport_scenario(vf::Chooser& ch, int depth) {
         int c = ch.choose(n_alloc + n_free + 4);
         if (c < n_alloc) {
             h.trace += "new(1,b0) "; vf::ctx("alloc"); g_next_boff = 0;
-            char* p = h.drv.alloc(K_NEW, 1, LOCFILE[K_NEW], 100 + step);
+            char* p = h.drv.alloc(K_NEW, 1, F_LOC, LOCFILE[K_NEW], 100 + step);
             if (!p) { h.failed("alloc", "returned-null", "NULL"); return; }
             p[0] = 'x'; h.add_rec(p, 1, K_NEW, LOCFILE[K_NEW], 100 + step, 0);
         } else if (c < n_alloc + n_free) {
@@ -734,7 +778,7 @@ void many_case(long idx) {
         if (i == d + k) { h.det.startChecking(); h.cur = mem_leak_period_checking; }
         int kind = fam == 3 ? i % 3 : fam;
         g_next_boff = BOFF[i % 3];
-        char* p = h.drv.alloc(kind, size, LOCFILE[kind], 100 + i);
+        char* p = h.drv.alloc(kind, size, F_LOC, LOCFILE[kind], 100 + i);
         if (!p) { h.failed("many", "returned-null", "allocation returned NULL"); return; }
         memset(p, 'a' + i % 26, size);
         h.add_rec(p, size, kind, LOCFILE[kind], 100 + i, BOFF[i % 3]);
@@ -772,7 +816,7 @@ void resat_case(long idx) {
     MemLeakPeriod p = PERIODS[idx % 4]; int kind = (int)(idx / 4);
     if (p == mem_leak_period_checking) { h.det.startChecking(); h.cur = p; } else if (p == mem_leak_period_enabled) { h.det.enable(); h.cur = p; }
     vf::ctx("alloc"); g_next_boff = 0;
-    char* m = h.drv.alloc(kind, 8, LOCFILE[kind], 42);
+    char* m = h.drv.alloc(kind, 8, F_LOC, LOCFILE[kind], 42);
     if (!m) { h.failed("alloc", "returned-null", "NULL"); return; }
     memset(m, 'x', 8); h.add_rec(m, 8, kind, LOCFILE[kind], 42, 0);
     h.trace = vf::fmt("%s(8) in period %s, then report(%s) x 60", ANAME[kind], PNAME[idx % 4], PNAME[idx % 4]);
@@ -812,14 +856,17 @@ int main(int argc, char** argv) {
     for (int b = 0; b < NBUCK; b++) for (int s = 0; s < 2; s++) for (int k = 0; k < 3; k++) AV_FULL.push_back({k, s ? (size_t)8 : (size_t)1, b, (k + s + b) % 3 != 2});
     auto describe = [](const Cfg& c) {
         std::string a;
-        for (auto& v : c.av) a += vf::fmt("%s/%zu/b%d%s ", ANAME[v.kind], v.size, BOFF[v.b], v.loc ? "" : "/noloc");
+        for (auto& v : c.av) {
+            if (c.route == 3) a += vf::fmt("%s(%zu%s)/b%d ", v.kind == K_MAL ? (v.eff_form() == F_CALLOC ? "calloc" : "malloc") : ANAME[v.kind], v.size, v.eff_form() == F_CALLOC ? ",file,line" : FORMNAME[v.eff_form()], BOFF[v.b]);
+            else a += vf::fmt("%s/%zu/b%d%s ", ANAME[v.kind], v.size, BOFF[v.b], v.loc ? "" : "/noloc");
+        }
         std::string cl; for (int p = 0; p < 4; p++) if (c.clear_mask & (1u << p)) cl += std::string(PNAME[p]) + " ";
         return vf::fmt("depth %d, live<=%d, route %s, alloc {%s}%s, free(h), realloc(malloc block, sizes {", c.depth, c.maxlive,
                        c.route == 0 ? "detector API natural layouts" : c.route == 1 ? "detector API all inline" : c.route == 2 ? "detector API all separate" : "global operators and cpputest_malloc family",
                        a.c_str(), c.realloc_null ? "+ realloc(NULL,8)" : "")
              + [&] { std::string s; for (auto z : c.rsizes) s += std::to_string(z) + " "; return s; }()
              + vf::fmt("}), %sstages 0..%d%s, clear {%s}%s%s; %s", c.period_mask == 15 ? "start/stopChecking, enable, disable, " : c.period_mask == 9 ? "startChecking, disable, " : "", c.maxstage, c.release ? " + stage release" : "", cl.c_str(),
-                       c.mark ? ", mark" : "", (std::string(c.misuse ? ", free(stale), free(foreign), realloc(foreign)" : "") + (c.rfail ? vf::fmt(", failing realloc of a malloc block (%s)%s", c.rfail == 1 ? "platform realloc answers NULL" : c.rfail == 2 ? "platform NULL; size SIZE_MAX/2" : "platform NULL; size SIZE_MAX/2; size SIZE_MAX-2", c.realloc_null ? " and of NULL" : "") : "")).c_str(), c.prune ? "pruned on canonical model state (chains in order, period, stage)" : "unpruned");
+                       c.mark ? ", mark" : "", (std::string(c.table_ops ? ", routing table: saveAndDisable+restore cycle, turnOff+turnOnDefault" : "") + std::string(c.misuse ? ", free(stale), free(foreign), realloc(foreign)" : "") + (c.rfail ? vf::fmt(", failing realloc of a malloc block (%s)%s", c.rfail == 1 ? "platform realloc answers NULL" : c.rfail == 2 ? "platform NULL; size SIZE_MAX/2" : "platform NULL; size SIZE_MAX/2; size SIZE_MAX-2", c.realloc_null ? " and of NULL" : "") : "")).c_str(), c.prune ? "pruned on canonical model state (chains in order, period, stage)" : "unpruned");
     };
     auto run_dfs = [&](const Cfg& c, int min_outcomes) {
         vf::info(std::string(c.name) + ".bound", describe(c));
@@ -835,8 +882,17 @@ int main(int argc, char** argv) {
     run_dfs(Cfg{"unk",  T ? 10 : 8,            4,         0, AV_3,     {24},    false, 0,  0, true, 0x1,       false, true,  true}, 10);
     if (!NG) run_dfs(Cfg{"inl", T ? 7 : 6,     4,         1, AV_MED,   {1, 24}, false, 9,  1, true, 0x8,       false, false, true, 3}, 10);
     run_dfs(Cfg{"sep",  T ? 7 : 6,             4,         2, AV_MED,   {1, 24}, false, 9,  1, true, 0x8,       false, false, true, 3}, 10);
-    run_dfs(Cfg{"glob", T ? 7 : 6,             4,         3, AV_MED,   {1, 24}, true,  9,  1, true, 0x8,       false, false, true, 3}, 10);
-    if (T && !NG) run_dfs(Cfg{"globfull", 5,   4,         3, AV_FULL,  {1, 24}, true,  9,  1, true, 0x8,       false, false, true, 3}, 10);
+    // route 3: every allocating entry of the routing table, each with its reference kind and location
+    const std::vector<AllocVar> AV_GLOB = {{K_NEW, 1, 0, false, F_PLAIN}, {K_ARR, 8, 1, false, F_PLAIN}, {K_NEW, 8, 2, false, F_NOTHROW}, {K_ARR, 1, 0, false, F_NOTHROW},
+                                           {K_NEW, 1, 1, true, F_LOC}, {K_ARR, 8, 0, true, F_LOC}, {K_MAL, 8, 0, true, F_LOC}, {K_MAL, 1, 1, false, F_PLAIN}};
+    std::vector<AllocVar> AV_GLOBFULL;     // + the int-line forms and calloc, every form in the first and in the last bucket
+    {
+        const int forms[11][2] = {{K_NEW, F_PLAIN}, {K_ARR, F_PLAIN}, {K_NEW, F_NOTHROW}, {K_ARR, F_NOTHROW}, {K_NEW, F_LOC}, {K_ARR, F_LOC}, {K_NEW, F_LOCINT}, {K_ARR, F_LOCINT},
+                                  {K_MAL, F_PLAIN}, {K_MAL, F_LOC}, {K_MAL, F_CALLOC}};
+        for (int b = 0; b < 2; b++) for (int f = 0; f < 11; f++) AV_GLOBFULL.push_back({forms[f][0], (f + b) % 2 ? (size_t)8 : (size_t)1, b ? 2 : 0, form_has_location(forms[f][1]), forms[f][1]});
+    }
+    run_dfs(Cfg{"glob", T && !NG ? 7 : 6,           4,         3, AV_GLOB,  {24},    true,  9,  1, true, 0x8,       false, false, true, 1, true}, 10);
+    if (T && !NG) run_dfs(Cfg{"globfull", 5,   4,         3, AV_GLOBFULL, {1, 24}, true, 9, 1, true, 0x8,      false, false, true, 3, true}, 10);
     {
         int n = T && !NG ? 6 : 5;
         long N = factorial(n) * ipow(3, n);
